@@ -96,7 +96,7 @@ Proof.
     - intros co Hco Hop. left. apply (HTM4 obj co Hco Hop). intros [].
     - intros (co & op' & fl' & af' & Hco & Hr' & Hf). eapply Hflp. exists co, op', fl', af'. rewrite <- Et4. auto.
     - intros m mo a0 a1 rest Hm Hmop Hk E. subst a1.
-      destruct (HTM4 m mo Hm Hmop (fun F => F)) as (b0 & b1 & r & b0o & b1o & v & Hk' & _ & _ & Hb1 & _ & Hn1).
+      destruct (HTM4 m mo Hm Hmop (fun F => F)) as (b0 & b1 & r & b0o & b1o & v & Hk' & _ & _ & Hb1 & _ & Hn1 & _).
       rewrite Hk in Hk'. inversion Hk'; subst b0 b1 r. assert (b1o = oo) by congruence. subst b1o.
       destruct (Hn1 _ _ _ Hrow) as (F & _). rewrite Hdf in F. discriminate.
     - auto.
